@@ -131,7 +131,7 @@ def run(res, tier, seed, widen=1):
         nfr = rng.choice([2, 2, 3, 5, 12, 40]) if rng.random() < 0.9 else 40
         descs = []
         for _ in range(nfr):
-            d = C02.gen_desc(rng, cfg)
+            d = C02.gen_desc(rng, cfg, boundary=rng.random() < 0.06)    # now and then a frame near the 11-bit maximum
             if cfg[0] == 0:
                 # domain of the statement without stuffing: the encoded frame contains no flag octet and,
                 # with abort detection, does not end in an escape octet
